@@ -175,11 +175,15 @@ def main(argv=None):
             return write_lock(prop, groups, undecided_fns)
         # ---- classify proof results against the lock
         refuted = [g for n, g in groups.items() if g["verdict"] == "refuted" and n in lock]
-        new_refuted = [g for n, g in groups.items() if g["verdict"] == "refuted" and n not in lock]
+        # a frame / ownership obligation that did not exist on the unchanged tree (the code now writes a location it did not write before) must hold as well
+        new_frame = [g for n, g in groups.items() if n not in lock and g["kind"] in ("frame", "frame-owner") and g["verdict"] != "discharged" and lock]
+        refuted += [g for g in new_frame if g["verdict"] == "refuted"]
+        open_locked_extra = [g for g in new_frame if g["verdict"] == "undecided"]
+        new_refuted = [g for n, g in groups.items() if g["verdict"] == "refuted" and n not in lock and g not in refuted]
         missing = sorted(n for n in lock if n not in groups)
         # vacuity covers ask the solver for a MODEL of quantified assumptions: a timeout there is not a verdict about the property and is only noted
         # (a cover that is REFUTED -- contradictory assumptions -- is reported); every other locked obligation must discharge
-        open_locked = [g for n, g in groups.items() if g["verdict"] == "undecided" and n in lock and g["kind"] != "cover"]
+        open_locked = [g for n, g in groups.items() if g["verdict"] == "undecided" and n in lock and g["kind"] != "cover"] + open_locked_extra
         covers_open = [n for n, g in groups.items() if g["verdict"] == "undecided" and g["kind"] == "cover"]
         discharged = [g for n, g in groups.items() if g["verdict"] == "discharged"]
         # ---- bounded layer (same contracts at run time on the real code)
@@ -255,8 +259,15 @@ def main(argv=None):
             print(f"NOTE property={prop} obligation={g['name']} is refuted but not locked (not required; see DESIGN 2.8)")
         if covers_open and args.verbose:
             print(f"NOTE property={prop} {len(covers_open)} vacuity covers without a model within the budget (not a verdict)")
+        selftest = None
+        if tier == "thorough" and not args.bounded_only and not os.environ.get("VERIF_REPO_SRC"):
+            selftest = mutation_self_test(prop)
+            for row in selftest:
+                if row.get("result") == "SURVIVED" and rc == 0:
+                    rc = 3
+                    print(f"CHECKER-ERROR property={prop} mutation self-test: seeded change {row['change']} no longer breaks any obligation of the proof layer")
         write_evidence(prop, tier, seed, R, funcs, groups, lock, bounded, violations, known_hits, undecided_fns, solve_s,
-                       time.time() - t_start, src)
+                       time.time() - t_start, src, selftest)
         n_req = len(lock)
         n_ok = sum(1 for n in lock if n in groups and (groups[n]["verdict"] == "discharged" or (groups[n]["kind"] == "cover" and groups[n]["verdict"] == "undecided")))
         print(f"{prop} [{tier}] obligations required={n_req} discharged={n_ok} generated={len(groups)} "
@@ -270,6 +281,39 @@ def main(argv=None):
         traceback.print_exc()
         print(f"CHECKER-ERROR property={prop}")
         return 3
+
+
+def mutation_self_test(prop):
+    """thorough tier: the seeded changes of this property that the deductive layer is known to notice (seeded/<id>/detection_proof.json) are applied to
+    a scratch copy of /repo's working tree (outside /repo and /verif, removed afterwards); the proof layer must again fail to discharge an obligation there.
+    A survivor means the contracts or the engine got weaker: reported as a checker error (exit 3), not as a verdict about the property."""
+    import shutil
+    import subprocess
+    import tempfile
+    seeded = os.path.join(HERE, "seeded")
+    rows = []
+    repo = os.environ.get("VERIF_REPO", "/repo")
+    for name in sorted(os.listdir(seeded)) if os.path.isdir(seeded) else []:
+        d = os.path.join(seeded, name)
+        pj = os.path.join(d, "detection_proof.json")
+        if not name.startswith(prop + "-") or not os.path.exists(pj):
+            continue
+        if json.load(open(pj)).get("exit") not in (1, 2):
+            continue
+        tmp = tempfile.mkdtemp(prefix=f"verif_selftest_{name}_")
+        try:
+            shutil.copytree(os.path.join(repo, "src"), os.path.join(tmp, "src"))
+            p = subprocess.run(["patch", "-p1", "-s", "-i", os.path.join(d, "patch.diff")], cwd=tmp, capture_output=True, text=True)
+            if p.returncode != 0:
+                rows.append({"change": name, "result": "patch does not apply to the current tree (skipped)"})
+                continue
+            env = dict(os.environ, VERIF_REPO_SRC=os.path.join(tmp, "src", "gbigsmiles"), VERIF_OUT=os.path.join(tmp, "out"), PYTHONPATH=os.path.join(tmp, "src"))
+            os.makedirs(os.path.join(tmp, "out"), exist_ok=True)
+            r = subprocess.run([sys.executable, "-m", "pyvc.run", prop, "--tier", "quick", "--no-bounded"], cwd=HERE, env=env, capture_output=True, text=True, timeout=3600)
+            rows.append({"change": name, "proof_layer_exit": r.returncode, "result": "noticed" if r.returncode in (1, 2) else "SURVIVED"})
+        finally:
+            shutil.rmtree(tmp, ignore_errors=True)
+    return rows
 
 
 def write_lock(prop, groups, undecided_fns):
@@ -302,7 +346,7 @@ def write_lock(prop, groups, undecided_fns):
     return 0
 
 
-def write_evidence(prop, tier, seed, R, funcs, groups, lock, bounded, violations, known_hits, undecided_fns, solve_s, wall, src):
+def write_evidence(prop, tier, seed, R, funcs, groups, lock, bounded, violations, known_hits, undecided_fns, solve_s, wall, src, selftest=None):
     manifest = json.load(open(os.path.join(HERE, "MANIFEST.json")))
     chk = next((c for c in manifest["checks"] if c["property_id"] == prop), None)
     level = chk["level_claimed"]["category"] if chk else "proof"
@@ -344,6 +388,8 @@ def write_evidence(prop, tier, seed, R, funcs, groups, lock, bounded, violations
         "known_findings_reproduced": [h["key"] for h, _ in known_hits],
         "undecided_functions": [{"function": k, "reason": w} for k, w in undecided_fns],
     }
+    if selftest is not None:
+        cov["mutation_self_test"] = selftest
     if bounded:
         cov["bounded"] = {k: v for k, v in bounded.items() if k not in ("violations", "assumptions")}
         cov["evaluations"] = int(bounded.get("evaluations", 0))
